@@ -16,6 +16,9 @@ from ..core import Violation
 
 PROP = "C13"
 SPELLINGS = ["relative", "glob-dstar", "glob-cross", "glob-star"]
+# "relative+seps": relative spelling on a file whose first line carries, inside a comment, characters that str.splitlines()
+# treats as line ends but Python, libcst and editors do not (form feed, U+2028, U+0085): line N is still line N
+SEPS_COMMENT = "if True:  # section \x0c one \u2028 two \x85 three \x1c\n"
 
 
 def candidate_seeds():
@@ -55,9 +58,15 @@ def eval_case(case):
 
 def _eval_seed(seed, n, mode, spelling):
     seed_id = seed.id
-    ms = multisite.build(seed, n)
+    seps = spelling.endswith("+seps")
+    spelling = spelling.split("+")[0]
+    ms = multisite.build(seed, n, wrap=1 if seps else 0)
     if ms is None:
         return [], {"usable": False, "why": "multi-site program could not be built"}
+    if seps:
+        if not ms.text.startswith("if True:\n"):
+            return [], {"usable": False, "why": "no wrapper line to carry the comment"}
+        ms.text = SEPS_COMMENT + ms.text[len("if True:\n"):]
     cm = seed.codemod
     data = ms.text.encode()
 
@@ -201,7 +210,7 @@ def cases(tier):
     out = []
     for cm in sorted(candidate_seeds()):
         for mode in ("exclude", "include"):
-            for sp in SPELLINGS if tier == "thorough" else SPELLINGS[:3]:
+            for sp in (SPELLINGS if tier == "thorough" else SPELLINGS[:3]) + ["relative+seps"]:
                 out.append((cm, n, mode, sp))
     return out + hist_cases(tier)
 
